@@ -11,6 +11,7 @@ ASSUMPTIONS = ['hashlib (OpenSSL / CPython _blake2) is correct for SHA-1/2/3, RI
                'pure-Python Keccak model pinned by SHA-3 equivalence and Keccak KATs (selftest)']
 FLOORS = {'evaluations': 20000, 'distinct': 15000}
 THOROUGH_ROUNDS = 3   # thorough tier: generator passes with derived seeds (runner.gen_rounds)
+EXTRA_CFGS = ['f32']   # the workload is also executed by the force-32bits build of the library; results must not change (runner.standard_check)
 
 FIXED = ['sha1', 'sha224', 'sha256', 'sha384', 'sha512', 'sha512_224', 'sha512_256', 'sha3_224', 'sha3_256', 'sha3_384', 'sha3_512',
          'keccak224', 'keccak256', 'keccak384', 'keccak512', 'ripemd160', 'blake2b_224', 'blake2b_256', 'blake2b_384', 'blake2b_512',
